@@ -8,7 +8,5 @@ import (
 
 func handlerOf(gw *protocol.Gateway) http.Handler { return http.HandlerFunc(gw.HandleGatewayProtocol) }
 
-func c10KdcReplay(env *Env, rep *Report)  {}
 func c10HTTPReplay(env *Env, rep *Report) {}
-func c10Kdc(env *Env, rep *Report) int    { return 0 }
 func c10HTTP(env *Env, rep *Report) int   { return 0 }
